@@ -185,8 +185,21 @@ func (g *Gen) rec() string {
 	return recToString(r)
 }
 
+// wide 64-bit values (C04's second int64 / uint64 column): neighbours that differ only below
+// float64's 53-bit mantissa, and the limits of the types
+var wideI = []int64{1 << 53, 1<<53 + 1, 1<<53 + 2, -(1 << 53) - 1, -(1 << 53), math.MaxInt64, math.MaxInt64 - 1, math.MinInt64, math.MinInt64 + 1, 1<<62 + 1, 1 << 62}
+var wideU = []uint64{1 << 53, 1<<53 + 1, 1<<53 + 2, math.MaxUint64, math.MaxUint64 - 1, 1 << 63, 1<<63 + 1, 1<<63 - 1, 1<<62 + 1}
+
+func wideCol(name string) bool { return name == "i641" || name == "u641" }
+
 func (g *Gen) value(c ColSpec) Val {
 	k := c.Kind
+	if g.pool == "agg" && wideCol(c.Name) {
+		if k == KInt64 {
+			return Val{B: uint64(wideI[g.rng.Intn(len(wideI))])}
+		}
+		return Val{B: wideU[g.rng.Intn(len(wideU))]}
+	}
 	switch {
 	case k.Numeric():
 		if c.Name == "expire" {
